@@ -1,7 +1,9 @@
 package model
 
 import (
+	"encoding/json"
 	"fmt"
+	"strings"
 
 	"github.com/openconfig/goyang/zzverif/tape"
 )
@@ -36,6 +38,9 @@ type Profile struct {
 	UsesHeavy bool
 	// Extras enables when/extension/description statements (which end up in Extra/Exts).
 	Extras bool
+	// Posix: string types may carry openconfig-extensions:posix-pattern
+	// statements (the scenario then includes a module of that name).
+	Posix bool
 	// PrefixTraps: modules may declare equal own prefixes and import other
 	// modules under arbitrary (per importer unique) prefixes, so that one prefix
 	// string means different modules in different texts.
@@ -179,6 +184,16 @@ func Generate(t *tape.Tape, p Profile) *Generated {
 	g.deviations()
 	g.injectLate()
 	g.assignImportPrefixes()
+	if g.p.Posix && usesPosix(g.s) {
+		g.s.Mods = append(g.s.Mods, NewPosixModule())
+	}
+	// some texts write references to their own definitions with the own prefix
+	ot := t.Sub("ownprefix")
+	for _, m := range g.s.Mods {
+		if ot.Chance(1, 3) {
+			m.OwnPrefix = ot.Uint64() | 1
+		}
+	}
 	return &Generated{S: g.s, Injected: g.injected}
 }
 
@@ -306,6 +321,10 @@ func (g *gen) defs(mi int, m *Mod) {
 		base := &Typedef{Name: g.id("t"), Type: &Type{Ref: Ref{Mod: "", Name: "string"}, Patterns: []string{"a.*", "b.*", ".*c"}}}
 		d1 := &Typedef{Name: g.id("t"), Type: &Type{Ref: Ref{Mod: m.Name, Name: base.Name}, Patterns: []string{g.id("q") + ".*"}}}
 		d2 := &Typedef{Name: g.id("t"), Type: &Type{Ref: Ref{Mod: m.Name, Name: base.Name}, Patterns: []string{g.id("q") + ".*"}}}
+		if g.p.Posix {
+			base.Type.Posix = []string{"^a.*$", "^b.*$"}
+			d1.Type.Posix = []string{"^" + g.id("q") + ".*$"}
+		}
 		m.Typedefs = append(m.Typedefs, base, d1, d2)
 	}
 	for k := g.rng(g.p.Groupings); k > 0; k-- {
@@ -397,6 +416,13 @@ func (g *gen) typ(v visible, sc *scope, depth int) *Type {
 		}
 		if t.Chance(1, 2) {
 			ty.Patterns = append(ty.Patterns, []string{"[a-z]+", "[0-9]*", "a|b", ".*x.*"}[t.Intn(4)])
+			if t.Chance(1, 2) {
+				ty.Patterns[0] += fmt.Sprintf("%04x", t.Intn(1<<16))
+			}
+		}
+		if g.p.Posix && t.Chance(1, 2) {
+			// mostly distinct texts, so that a memo keyed by the text is cold
+			ty.Posix = append(ty.Posix, fmt.Sprintf("%s%04x$", []string{"^[a-z]+", "^[0-9]*", "^(a|b)", "^.*x.*"}[t.Intn(4)], t.Intn(1<<16)))
 		}
 		return ty
 	case 3:
@@ -1339,4 +1365,10 @@ func (g *gen) injectLate() {
 			}
 		}
 	}
+}
+
+// usesPosix reports whether some type of the scenario has posix patterns.
+func usesPosix(s *Scenario) bool {
+	b, _ := json.Marshal(s)
+	return strings.Contains(string(b), `"posix":[`)
 }
